@@ -149,24 +149,16 @@ func (vt *Model) ich(ps int) {
 	col := vt.cursor.col
 	row := vt.cursor.row
 	line := vt.activeScreen[row]
-	for i := vt.margin.right; i > col; i -= 1 {
-		if (i - column(ps)) < 0 {
-			continue
-		}
+	if col > vt.margin.right {
+		return
+	}
+	// Only the cells from the cursor on move, and they cannot come from
+	// before the cursor
+	for i := vt.margin.right; i >= col+column(ps); i -= 1 {
 		line[i] = line[i-column(ps)]
 	}
-	for i := 0; i < ps; i += 1 {
-		if int(col)+i >= (vt.width() - 1) {
-			break
-		}
-		line[col+column(i)] = cell{
-			Cell: vaxis.Cell{
-				Character: vaxis.Character{
-					Grapheme: " ",
-					Width:    1,
-				},
-			},
-		}
+	for i := col; i < col+column(ps) && i <= vt.margin.right; i += 1 {
+		line[i].erase(vt.cursor.Style.Background)
 	}
 }
 
